@@ -675,6 +675,59 @@ class Models(Structural):
     def np_nonzero(self, x):
         return self.where1(emap(lambda v: T.truthy(v), 'bool', x))
 
+    @reg('numpy.flatnonzero')
+    def np_flatnonzero(self, x):
+        x = self.asarray(x)
+        if len(x.shape) != 1:
+            raise EngineError('flatnonzero of an n-d array')
+        return self.where1(emap(lambda v: T.truthy(v), 'bool', x))[0]
+
+    # ---- binary ufuncs called by name (np.add(a, b), np.divide(a, b, out=..., where=...))
+    def _ufunc2(self, op, a, b, out=None, where=True, **kw):
+        import ast as _ast
+        if kw:
+            raise EngineError('ufunc keyword %s is not modelled' % sorted(kw))
+        r = self.lib.binop(op, a, b)
+        if where is True and out is None:
+            return r
+        if where is not True:
+            # positions where the mask is False keep the value of `out` (uninitialised memory without out=: not modelled)
+            if out is None:
+                raise EngineError('ufunc where= without out=: result undefined at masked positions')
+            r = self.np_where(where, r, out)
+        if out is not None:
+            if not is_arr(out):
+                raise EngineError('out= with a non-array')
+            if self.itp.store_hook:
+                self.itp.store_hook(out)
+            self.lib.setitem(out, (slice(None),) * len(out.shape), r)
+            return out
+        return r
+
+    @reg('numpy.divide', 'numpy.true_divide')
+    def np_divide(self, a, b, out=None, where=True, **kw):
+        import ast as _ast
+        if where is not True and is_arr(where):
+            # masked division: the quotient is only formed where the mask holds (no division by zero obligation elsewhere)
+            safe_b = self.np_where(where, b, 1)
+            return self._ufunc2(_ast.Div, a, safe_b, out=out, where=where, **kw)
+        return self._ufunc2(_ast.Div, a, b, out=out, where=where, **kw)
+
+    @reg('numpy.multiply')
+    def np_multiply(self, a, b, out=None, where=True, **kw):
+        import ast as _ast
+        return self._ufunc2(_ast.Mult, a, b, out=out, where=where, **kw)
+
+    @reg('numpy.add')
+    def np_add(self, a, b, out=None, where=True, **kw):
+        import ast as _ast
+        return self._ufunc2(_ast.Add, a, b, out=out, where=where, **kw)
+
+    @reg('numpy.subtract')
+    def np_subtract(self, a, b, out=None, where=True, **kw):
+        import ast as _ast
+        return self._ufunc2(_ast.Sub, a, b, out=out, where=where, **kw)
+
     # ====================================================================================== reductions
     def _prefix(self, x, kind, extra=None):
         """Hash-consed prefix-scan function of a 1-d closure array: returns (c, n) with c(i) = scan up to i (inclusive).
@@ -1026,6 +1079,31 @@ class Models(Structural):
         x = self.asarray(x)
         if isinstance(x, BArr):
             return T.sor(*[T.truthy(v) for v in x.a.reshape(-1).tolist()]) if x.a.size else False
+        return self._quant_reduce(x, True)
+
+    def _quant_reduce(self, x, is_any):
+        """any()/all() of a 1-d closure array: a fresh boolean e with  e <-> exists i. x[i]  (any)  /  e <-> forall i. x[i]  (all);
+        the existential direction through a fresh witness index"""
+        if len(x.shape) != 1:
+            raise EngineError('any()/all() of an n-d closure array')
+        cx = A.to_carr(x)
+        rd = cx.reader()
+        n = T.to_int_term(cx.shape[0])
+        e = T.fresh('any' if is_any else 'all', T.B)
+        w = T.fresh('anyw', T.I)
+        i = z3.Int('any_i')
+        tr = lambda t: T.to_bool_term(T.truthy(rd(t)))
+        c = ctx()
+        if is_any:
+            c.fact(z3.Implies(e, z3.And(0 <= w, w < n, tr(w))))
+            c.fact(z3.Implies(z3.Not(e), z3.ForAll([i], z3.Implies(z3.And(0 <= i, i < n), z3.Not(tr(i))))))
+        else:
+            c.fact(z3.Implies(z3.Not(e), z3.And(0 <= w, w < n, z3.Not(tr(w)))))
+            c.fact(z3.Implies(e, z3.ForAll([i], z3.Implies(z3.And(0 <= i, i < n), tr(i)))))
+        c.assumed.append('numpy.any/all')
+        return N(e)
+
+    def _unused_any(self):
         raise EngineError('any() of closure array')
 
     @reg('numpy.all')
@@ -1033,7 +1111,7 @@ class Models(Structural):
         x = self.asarray(x)
         if isinstance(x, BArr):
             return T.sand(*[T.truthy(v) for v in x.a.reshape(-1).tolist()]) if x.a.size else True
-        raise EngineError('all() of closure array')
+        return self._quant_reduce(x, False)
 
 
 def _cx_lex_gt(a, b):
